@@ -7,6 +7,7 @@ import Amshan.Model.P1Obs
 import Amshan.Model.P1Defs
 import Amshan.Model.ProtoInst
 import Amshan.Model.Obis
+import Amshan.Model.BackOff
 import Amshan.Spec.ObisText
 /-
   Line-protocol driver: one request per line on stdin, one answer per line on stdout.
@@ -229,6 +230,38 @@ def opObisEq : List String → String
     | _, _ => "bad-args"
   | _ => "bad-args"
 
+/-- backoff max ops(string of f/r) -> delays after each op ; spec values -/
+def opBackoff : List String → String
+  | [mx, ops] =>
+    match mx.toNat? with
+    | some mx =>
+      let opsL : List BackOff.Op := (if ops == "." then [] else ops.toList).map (fun c => if c == 'f' then BackOff.Op.failure else BackOff.Op.reset)
+      let rec go (s : BackOff.Strategy) (n : Nat) : List BackOff.Op → List String
+        | [] => []
+        | o :: os =>
+          let s1 := s.apply o
+          let n1 := match o with | .failure => n + 1 | .reset => 0
+          let spec := if n1 = 0 then 0 else min (2 ^ (n1 - 1)) mx
+          (toString s1.current ++ "/" ++ toString spec) :: go s1 n1 os
+      String.intercalate " " (toString (BackOff.Strategy.new mx).current :: go (BackOff.Strategy.new mx) 0 opsL)
+    | none => "bad-args"
+  | _ => "bad-args"
+
+/-- breaker threshold sleep delay maxdelay losses(comma list of µs, "." none) -> flag,backofftime after each loss -/
+def opBreaker : List String → String
+  | [thr, slp, delay, mx, losses] =>
+    let ls : Option (List Nat) := if losses == "." then some [] else (losses.splitOn ",").mapM String.toNat?
+    match thr.toNat?, slp.toNat?, delay.toNat?, mx.toNat?, ls with
+    | some thr, some slp, some delay, some mx, some ls =>
+      let s : BackOff.Strategy := { delay := delay, maxDelay := mx }
+      let b0 : BackOff.Breaker := { threshold := thr, sleepSec := slp, lastLoss := none, sleepFlag := false }
+      let rec go (b : BackOff.Breaker) : List Nat → List String
+        | [] => []
+        | t :: ts => let b1 := b.update t; (bool01 b1.sleepFlag ++ "/" ++ toString (BackOff.getBackOffTime s b1)) :: go b1 ts
+      String.intercalate " " ((bool01 b0.sleepFlag ++ "/" ++ toString (BackOff.getBackOffTime s b0)) :: go b0 ls)
+    | _, _, _, _, _ => "bad-args"
+  | _ => "bad-args"
+
 def dispatch (line : String) : String :=
   match (line.trimAscii.toString.splitOn " ").filter (· ≠ "") with
   | [] => "bad-op"
@@ -241,6 +274,8 @@ def dispatch (line : String) : String :=
     | "hdlc.clean" => opHdlcClean args
     | "p1.read" => opP1Read args
     | "proto" => opProto args
+    | "backoff" => opBackoff args
+    | "breaker" => opBreaker args
     | "obis.parse" => opObisParse args
     | "obis.fmt" => opObisFmt args
     | "obis.eq" => opObisEq args
